@@ -17,6 +17,7 @@ package s2
 import (
 	"fmt"
 	"math"
+	"math/big"
 
 	"github.com/golang/geo/r3"
 	"github.com/golang/geo/s1"
@@ -386,17 +387,21 @@ func intersectionExact(a0, a1, b0, b1 Point) Point {
 	// The final Normalize() call is done in double precision, which creates a
 	// directional error of up to 2*dblError. (Precise conversion and Normalize()
 	// each contribute up to dblError of directional error.)
-	x := xP.Vector()
+	//
+	// The exact vector is rescaled before the conversion: its components can
+	// be far below the float64 exponent range (tiny edges), where a direct
+	// conversion would yield the zero vector and lose the direction.
+	x := normalizableFromPrecise(xP).Normalize()
 
-	if x == (r3.Vector{}) {
+	if xP.IsZero() {
 		// The two edges are exactly collinear, but we still consider them to be
 		// "crossing" because of simulation of simplicity. Out of the four
 		// endpoints, exactly two lie in the interior of the other edge. Of
 		// those two we return the one that is lexicographically smallest.
 		x = r3.Vector{X: 10, Y: 10, Z: 10} // Greater than any valid S2Point
 
-		aNorm := Point{aNormP.Vector()}
-		bNorm := Point{bNormP.Vector()}
+		aNorm := Point{normalizableFromPrecise(aNormP).Normalize()}
+		bNorm := Point{normalizableFromPrecise(bNormP).Normalize()}
 		if OrderedCCW(b0, a0, b1, bNorm) && a0.Cmp(x) == -1 {
 			x = a0.Vector
 		}
@@ -412,6 +417,28 @@ func intersectionExact(a0, a1, b0, b1 Point) Point {
 	}
 
 	return Point{x}
+}
+
+// normalizableFromPrecise converts an exact vector to a float64 vector with the
+// same direction whose largest component has magnitude in [0.5, 1), so that it
+// can be normalized without underflow or overflow however small or large the
+// exact vector is. (Converting the components directly loses the direction as
+// soon as they leave the float64 exponent range.)
+func normalizableFromPrecise(v r3.PreciseVector) r3.Vector {
+	exp, found := 0, false
+	for _, f := range []*big.Float{v.X, v.Y, v.Z} {
+		if f.Sign() != 0 && (!found || f.MantExp(nil) > exp) {
+			exp, found = f.MantExp(nil), true
+		}
+	}
+	if !found {
+		return r3.Vector{}
+	}
+	conv := func(f *big.Float) float64 {
+		x, _ := new(big.Float).SetMantExp(f, -exp).Float64()
+		return x
+	}
+	return r3.Vector{X: conv(v.X), Y: conv(v.Y), Z: conv(v.Z)}
 }
 
 // AngleContainsVertex reports if the angle ABC contains its vertex B.
